@@ -9,8 +9,10 @@ CONSTANTS
   MaxTbl = 2
   Lazy = TRUE
   Push = FALSE
+  Dialers <- OnlyA
+  Servers <- OnlyB
 INIT Init
 NEXT Next
 VIEW View
 INVARIANTS TypeOK RightHandler
-PROPERTIES OpenBinds Agreement Dispatch OneHandler NoCommon RemovedNeverRuns
+PROPERTIES OpenBinds Agreement Dispatch OneHandler NoCommon RemovedNeverRuns CommonMeansSuccess KnowledgeSources
